@@ -584,6 +584,16 @@ func (u *Unit) callFunc(st *State, call *ast.CallExpr, fn *types.Func) []Value {
 	if cs.copyBack != nil {
 		cs.copyBack(st)
 	}
+	if len(u.frames) == 1 && u.spec != nil && (len(u.spec.Ghost) > 0 || len(u.spec.Asserts) > 0) {
+		extra := map[string]Value{}
+		for i, r := range res {
+			extra[fmt.Sprintf("$r%d", i)] = r
+		}
+		for i, a := range cs.args {
+			extra[fmt.Sprintf("$a%d", i)] = a
+		}
+		u.runAnchorsNamed(st, "after:"+fn.Name(), call.Pos(), extra)
+	}
 	return res
 }
 
